@@ -1,6 +1,7 @@
 package props
 
 import (
+	"regexp"
 	"fmt"
 	"go/ast"
 	"go/constant"
@@ -59,6 +60,7 @@ func stripSpaces(s string) string { return strings.ReplaceAll(s, " ", "") }
 
 // hmapClassifier abstracts statements of one method into events.
 type hmapClassifier struct {
+	depth int // hashExprKind: how many caller hops were followed
 	resolveCall func(call *ast.CallExpr) ast.Expr // value of a same-receiver selector helper under the mode being specialised
 	fi   *core.FuncInfo
 	info *types.Info
@@ -921,7 +923,14 @@ func (h *hmapType) enumerateWith(fi *core.FuncInfo, cl *hmapClassifier, mode str
 			return -1
 		},
 	}
-	return paths.Enumerate(fi.Decl.Body, cfg)
+	all, over := paths.Enumerate(fi.Decl.Body, cfg)
+	var out []paths.Path
+	for _, pa := range all {
+		if pa.FlagConsistent() {
+			out = append(out, pa)
+		}
+	}
+	return out, over
 }
 
 func modeEnd(mode string) string {
@@ -1000,13 +1009,13 @@ func (h *hmapType) checkInsertHelpers() {
 							guardL = "header.link_prev"
 						}
 						moved := pa.Has("UNLINK") && pa.HasArg("LINK", end)
-						already := pa.HasArg("COND", cc(guardL, "!=", "e", false))
+						already := guardOutcome(pa, guardL, false)
 						switch {
 						case !wantMove && (pa.Has("UNLINK") || pa.Has("LINK")):
 							upd = append(upd, "a plain put/add moves an existing entry in the order list")
 						case wantMove && !moved && !already:
 							upd = append(upd, "put-"+end+" does not move an existing entry to the "+end+" end: "+pa.String())
-						case wantMove && moved && !pa.HasArg("COND", cc(guardL, "!=", "e", true)):
+						case wantMove && moved && !guardOutcome(pa, guardL, true):
 							upd = append(upd, "the move is not guarded by 'not already at that end'")
 						case wantMove && pa.HasArg("LINK", opposite(end)):
 							upd = append(upd, "existing entry moved to the wrong end")
@@ -1287,8 +1296,50 @@ func hashExprKind(c *hmapClassifier, e ast.Expr) string {
 		if def != nil {
 			return hashExprKind(c, def)
 		}
+		// a parameter of an unexported helper (locate(key, keyHash)): what its callers pass
+		if pi := paramIndex(c.fi, obj); pi >= 0 && !c.fi.Obj.Exported() && hmapProg != nil && c.depth < 2 {
+			kinds := map[string]bool{}
+			for _, cfi := range hmapProg.Funcs {
+				if cfi.Pkg != c.fi.Pkg || cfi.Decl.Body == nil || cfi == c.fi {
+					continue
+				}
+				ast.Inspect(cfi.Decl.Body, func(m ast.Node) bool {
+					call, ok := m.(*ast.CallExpr)
+					if !ok || pi >= len(call.Args) {
+						return true
+					}
+					if fn := calleeFunc(cfi.Pkg.TypesInfo, call); fn == c.fi.Obj {
+						cc2 := newHmapClassifier(cfi)
+						cc2.depth = c.depth + 1
+						kinds[hashExprKind(cc2, call.Args[pi])] = true
+					}
+					return true
+				})
+			}
+			if len(kinds) == 1 {
+				for k := range kinds {
+					return k
+				}
+			}
+		}
 	}
 	return "other:" + c.norm(e)
+}
+
+func paramIndex(fi *core.FuncInfo, obj types.Object) int {
+	if fi.Decl.Type.Params == nil || obj == nil {
+		return -1
+	}
+	i := 0
+	for _, f := range fi.Decl.Type.Params.List {
+		for _, n := range f.Names {
+			if fi.Pkg.TypesInfo.Defs[n] == obj {
+				return i
+			}
+			i++
+		}
+	}
+	return -1
 }
 
 // linkKind classifies a callee by what it does to the order list, whatever it is called and whether it
@@ -1429,7 +1480,7 @@ func (h *hmapType) checkMoves() {
 				}
 				if e.Arg != "first" && e.Arg != "last" {
 					probs = append(probs, "an entry is re-linked at an unrecognised position")
-				} else if !pa.HasArg("COND", cc(guardL, "!=", "e", true)) {
+				} else if !guardOutcome(pa, guardL, true) {
 					probs = append(probs, "an entry is moved to the "+e.Arg+" end without first testing that it is not already there (the guard tests the other end or is missing): the entry that is already in place is moved, the one that is not stays")
 				}
 			}
@@ -2062,6 +2113,44 @@ func (h *hmapType) nonNeg(fi *core.FuncInfo, e ast.Expr, depth int) bool {
 			}
 		}
 		return true
+	}
+	return false
+}
+
+var identRe = regexp.MustCompile(`^[A-Za-z_][A-Za-z0-9_]*$`)
+
+// guardOutcome: the path tested `<end> != <entry variable>` with the given outcome, whatever the
+// variable holding the found entry is called (e, present, hit ...).
+func guardOutcome(pa paths.Path, end string, notEqual bool) bool {
+	for _, e := range pa {
+		if e.Kind != "COND" {
+			continue
+		}
+		i := strings.LastIndexByte(e.Arg, '=')
+		if i < 0 {
+			continue
+		}
+		atom, val := e.Arg[:i], e.Arg[i+1:] == "true"
+		parts := strings.SplitN(atom, "==", 2)
+		if len(parts) != 2 {
+			continue
+		}
+		var other string
+		switch {
+		case parts[0] == end:
+			other = parts[1]
+		case parts[1] == end:
+			other = parts[0]
+		default:
+			continue
+		}
+		if !identRe.MatchString(other) || other == "nil" || other == "header" {
+			continue
+		}
+		// the atom is an equality: `!=` true is `==` false
+		if val == !notEqual {
+			return true
+		}
 	}
 	return false
 }
